@@ -279,7 +279,8 @@ MANIFEST = dict(
           'checksum is given. The wiring of each filter result to its client operation is proved on the task and '
           'submission functions. The table cell for every (method, mode, operation, argument name) is an obligation '
           'evaluated from the class constants of the real AST against the installed botocore model: exhaustive over the '
-          'finite name space, every subset at once because the map is symbolic.'),
+          'finite name space, every subset at once because the map is symbolic.'
+          " Public TransferManager methods (upload / download / copy / delete): validation against the method's allow-list before anything else, upload works on its own copy of the argument map and every method leaves the caller's map untouched; legacy S3Transfer paths (upload_file, MultipartUploader filters and per-request arguments, download_file, ranged GETs)."),
     note=('accepts(op, name) is the installed botocore S3 model (assumed contract of the dependency); exceptions written '
           'into the expected column are exactly those the property states.'),
     technique='contract-based deductive verification: quantified map contracts + per-cell obligations over AST constants',
